@@ -85,3 +85,24 @@ Run/RunC10.vos Run/RunC10.vok Run/RunC10.required_vos: Run/RunC10.v Base.vos Pri
 Properties/C10.vo Properties/C10.glob Properties/C10.v.beautified Properties/C10.required_vo: Properties/C10.v Base.vo Prim.vo
 Properties/C10.vio: Properties/C10.v Base.vio Prim.vio
 Properties/C10.vos Properties/C10.vok Properties/C10.required_vos: Properties/C10.v Base.vos Prim.vos
+Proofs/ParseSpec.vo Proofs/ParseSpec.glob Proofs/ParseSpec.v.beautified Proofs/ParseSpec.required_vo: Proofs/ParseSpec.v Base.vo
+Proofs/ParseSpec.vio: Proofs/ParseSpec.v Base.vio
+Proofs/ParseSpec.vos Proofs/ParseSpec.vok Proofs/ParseSpec.required_vos: Proofs/ParseSpec.v Base.vos
+Proofs/ParseLoops.vo Proofs/ParseLoops.glob Proofs/ParseLoops.v.beautified Proofs/ParseLoops.required_vo: Proofs/ParseLoops.v Base.vo Prim.vo Model/Digit.vo Model/Core.vo Model/Shift.vo Model/AddSub.vo Model/Bits.vo Model/Parse.vo
+Proofs/ParseLoops.vio: Proofs/ParseLoops.v Base.vio Prim.vio Model/Digit.vio Model/Core.vio Model/Shift.vio Model/AddSub.vio Model/Bits.vio Model/Parse.vio
+Proofs/ParseLoops.vos Proofs/ParseLoops.vok Proofs/ParseLoops.required_vos: Proofs/ParseLoops.v Base.vos Prim.vos Model/Digit.vos Model/Core.vos Model/Shift.vos Model/AddSub.vos Model/Bits.vos Model/Parse.vos
+Proofs/ParseArith.vo Proofs/ParseArith.glob Proofs/ParseArith.v.beautified Proofs/ParseArith.required_vo: Proofs/ParseArith.v Base.vo Prim.vo Model/Digit.vo Model/Core.vo Model/Shift.vo Model/AddSub.vo Model/Bits.vo Model/Parse.vo Proofs/ParseSpec.vo Proofs/ParseLoops.vo
+Proofs/ParseArith.vio: Proofs/ParseArith.v Base.vio Prim.vio Model/Digit.vio Model/Core.vio Model/Shift.vio Model/AddSub.vio Model/Bits.vio Model/Parse.vio Proofs/ParseSpec.vio Proofs/ParseLoops.vio
+Proofs/ParseArith.vos Proofs/ParseArith.vok Proofs/ParseArith.required_vos: Proofs/ParseArith.v Base.vos Prim.vos Model/Digit.vos Model/Core.vos Model/Shift.vos Model/AddSub.vos Model/Bits.vos Model/Parse.vos Proofs/ParseSpec.vos Proofs/ParseLoops.vos
+Proofs/ParseDeps.vo Proofs/ParseDeps.glob Proofs/ParseDeps.v.beautified Proofs/ParseDeps.required_vo: Proofs/ParseDeps.v Base.vo Prim.vo Model/Digit.vo Model/Core.vo Model/Shift.vo Model/AddSub.vo Model/Bits.vo
+Proofs/ParseDeps.vio: Proofs/ParseDeps.v Base.vio Prim.vio Model/Digit.vio Model/Core.vio Model/Shift.vio Model/AddSub.vio Model/Bits.vio
+Proofs/ParseDeps.vos Proofs/ParseDeps.vok Proofs/ParseDeps.required_vos: Proofs/ParseDeps.v Base.vos Prim.vos Model/Digit.vos Model/Core.vos Model/Shift.vos Model/AddSub.vos Model/Bits.vos
+Proofs/ParsePow2.vo Proofs/ParsePow2.glob Proofs/ParsePow2.v.beautified Proofs/ParsePow2.required_vo: Proofs/ParsePow2.v Base.vo Prim.vo Model/Digit.vo Model/Core.vo Model/Shift.vo Model/AddSub.vo Model/Bits.vo Model/Parse.vo Proofs/ParseSpec.vo Proofs/ParseLoops.vo Proofs/ParseArith.vo
+Proofs/ParsePow2.vio: Proofs/ParsePow2.v Base.vio Prim.vio Model/Digit.vio Model/Core.vio Model/Shift.vio Model/AddSub.vio Model/Bits.vio Model/Parse.vio Proofs/ParseSpec.vio Proofs/ParseLoops.vio Proofs/ParseArith.vio
+Proofs/ParsePow2.vos Proofs/ParsePow2.vok Proofs/ParsePow2.required_vos: Proofs/ParsePow2.v Base.vos Prim.vos Model/Digit.vos Model/Core.vos Model/Shift.vos Model/AddSub.vos Model/Bits.vos Model/Parse.vos Proofs/ParseSpec.vos Proofs/ParseLoops.vos Proofs/ParseArith.vos
+Proofs/ParseGen.vo Proofs/ParseGen.glob Proofs/ParseGen.v.beautified Proofs/ParseGen.required_vo: Proofs/ParseGen.v Base.vo Prim.vo Model/Digit.vo Model/Core.vo Model/Shift.vo Model/AddSub.vo Model/Bits.vo Model/Parse.vo Proofs/ParseSpec.vo Proofs/ParseLoops.vo Proofs/ParseArith.vo Proofs/ParsePow2.vo Proofs/ParseDeps.vo
+Proofs/ParseGen.vio: Proofs/ParseGen.v Base.vio Prim.vio Model/Digit.vio Model/Core.vio Model/Shift.vio Model/AddSub.vio Model/Bits.vio Model/Parse.vio Proofs/ParseSpec.vio Proofs/ParseLoops.vio Proofs/ParseArith.vio Proofs/ParsePow2.vio Proofs/ParseDeps.vio
+Proofs/ParseGen.vos Proofs/ParseGen.vok Proofs/ParseGen.required_vos: Proofs/ParseGen.v Base.vos Prim.vos Model/Digit.vos Model/Core.vos Model/Shift.vos Model/AddSub.vos Model/Bits.vos Model/Parse.vos Proofs/ParseSpec.vos Proofs/ParseLoops.vos Proofs/ParseArith.vos Proofs/ParsePow2.vos Proofs/ParseDeps.vos
+Proofs/Parse.vo Proofs/Parse.glob Proofs/Parse.v.beautified Proofs/Parse.required_vo: Proofs/Parse.v Base.vo Prim.vo Model/Digit.vo Model/Core.vo Model/Shift.vo Model/AddSub.vo Model/Bits.vo Model/Parse.vo Proofs/ParseSpec.vo Proofs/ParseLoops.vo Proofs/ParseArith.vo Proofs/ParsePow2.vo Proofs/ParseGen.vo Proofs/ParseDeps.vo
+Proofs/Parse.vio: Proofs/Parse.v Base.vio Prim.vio Model/Digit.vio Model/Core.vio Model/Shift.vio Model/AddSub.vio Model/Bits.vio Model/Parse.vio Proofs/ParseSpec.vio Proofs/ParseLoops.vio Proofs/ParseArith.vio Proofs/ParsePow2.vio Proofs/ParseGen.vio Proofs/ParseDeps.vio
+Proofs/Parse.vos Proofs/Parse.vok Proofs/Parse.required_vos: Proofs/Parse.v Base.vos Prim.vos Model/Digit.vos Model/Core.vos Model/Shift.vos Model/AddSub.vos Model/Bits.vos Model/Parse.vos Proofs/ParseSpec.vos Proofs/ParseLoops.vos Proofs/ParseArith.vos Proofs/ParsePow2.vos Proofs/ParseGen.vos Proofs/ParseDeps.vos
